@@ -34,6 +34,12 @@ void v_assume_fail(const char *expr, const char *file, int line);
 #define V_ICON_CAP 48u      /* bytes of icon / friendly-name content the model carries          */
 #define V_NCLK 6u
 
+/* Spec functions are single return expressions (no loops, no local assignments): DFCC instruments every
+ * assignment of every function it sees, and looping spec functions multiplied symex time by 10-30x. */
+#define V_REP6(F) F(0) F(1) F(2) F(3) F(4) F(5)
+#define V_REP16(F) F(0) F(1) F(2) F(3) F(4) F(5) F(6) F(7) F(8) F(9) F(10) F(11) F(12) F(13) F(14) F(15)
+#define V_REP128(F) F(0) F(1) F(2) F(3) F(4) F(5) F(6) F(7) F(8) F(9) F(10) F(11) F(12) F(13) F(14) F(15) F(16) F(17) F(18) F(19) F(20) F(21) F(22) F(23) F(24) F(25) F(26) F(27) F(28) F(29) F(30) F(31) F(32) F(33) F(34) F(35) F(36) F(37) F(38) F(39) F(40) F(41) F(42) F(43) F(44) F(45) F(46) F(47) F(48) F(49) F(50) F(51) F(52) F(53) F(54) F(55) F(56) F(57) F(58) F(59) F(60) F(61) F(62) F(63) F(64) F(65) F(66) F(67) F(68) F(69) F(70) F(71) F(72) F(73) F(74) F(75) F(76) F(77) F(78) F(79) F(80) F(81) F(82) F(83) F(84) F(85) F(86) F(87) F(88) F(89) F(90) F(91) F(92) F(93) F(94) F(95) F(96) F(97) F(98) F(99) F(100) F(101) F(102) F(103) F(104) F(105) F(106) F(107) F(108) F(109) F(110) F(111) F(112) F(113) F(114) F(115) F(116) F(117) F(118) F(119) F(120) F(121) F(122) F(123) F(124) F(125) F(126) F(127)
+
 /* ---- configuration: what the platform layer supplies for this interface ------------------------- */
 struct v_cfg {
     size_t   mtu;            uint8_t mtu_fail;
@@ -139,10 +145,8 @@ static inline bool v_cfg_ok(const struct v_cfg *c) {
     if (c->icon_size > V_ICON_CAP || c->fname_size > V_ICON_CAP) return false;
     if (c->hwid_len > 64) return false;
     if (c->clk_s0 >= ((uint64_t)1 << 40) || c->clk_frac0 >= 1000) return false;
-    for (unsigned i = 0; i < V_NCLK; i++) {
-        if (c->clk_adv_s[i] > 200000u || c->clk_frac[i] >= 1000) return false;
-    }
-    return true;
+#define V_CLK_OK_(i) && c->clk_adv_s[i] <= 200000u && c->clk_frac[i] < 1000
+    return true V_REP6(V_CLK_OK_);
 }
 
 void v_env_reset(void);       /* zero the ledger, start the clock at g_cfg.clk_* */
